@@ -20,4 +20,5 @@ var checks = map[string]checkDef{
 	"C14": {Harness: "c14"},
 	"C17": {Harness: "c17"},
 	"C18": {Harness: "c18", Instrument: true},
+	"C19": {Harness: "c19", Instrument: true},
 }
